@@ -112,12 +112,13 @@ CLAIMS = {
          "non-final &&/|| operand, `!`) no failure however deeply nested through groups, functions, eval, loops, case, subshells, command "
          "substitutions or pipelines produces an exit; pipefail_status_is_rightmost_nonzero_else_last; errexit_off_in_cmdsubst_unless_inherit. "
          "Tie: exhaustive family (failing leaf x 13 contexts x 10 wrappers x 5 option settings x 2 nesting orders) + seeded random programs "
-         "run in brush and bash and both Lean models. nounset: 49 expansion forms x 9 variable states (+ positional cases) decided directly "
-         "brush vs bash (exploration, not proof).",
+         "run in brush and bash and both Lean models. nounset: theorems on the shared parameter-expansion model (plain/substring/removal of an "
+         "unset parameter are rejected under -u; the - + = ? operators, $@/$*/a[@] never are; cex for ${#v[@]}) and 49 expansion forms x 9 "
+         "variable states (+ positional cases) decided directly brush vs bash.",
          "Trusted: Lean kernel + standard axioms; bash 5.2.15 as oracle. The Lean bash-errexit semantics (Spec/FlowBash.lean: checks after simple "
          "commands, subshells, pipelines, failing builtins; not after groups/loops/if/case) is validated against bash on every case. Three bash "
-         "behaviours contradicting the property's wording are excluded from generation (DESIGN.md). nounset has no theorem yet: it is decided "
-         "by direct comparison only (partial).",
+         "behaviours contradicting the property's wording are excluded from generation (DESIGN.md). For nounset the theorems cover the operators of Model/ParamOps.lean; the other "
+         "forms of the table are decided by direct comparison only (partial).",
          "DESIGN.md §6 C03"),
  "C13": ("Lean 4 round-trip proofs (reader ∘ quoter = id) over tables regenerated from escape.rs + in-process and end-to-end correspondence",
          "Proof: Model/Quote.lean mirrors escape::quote and the value printers, Model/Unquote.lean the reader (brush and bash variants); tables "
